@@ -2071,6 +2071,14 @@ package decimal128
 //@ assert before "rem = rem.mul64(10)"#2: PEP == 10 * PE
 //@ assert after "sig, rem = dSig.div(oSig)": TK * PE == NV0 && PE == pw10(exp)
 //@ assert after "rem = uint128{rem64, 0}": TK * PE == NV0 && PE == pw10(exp)
+//@ loop 6: decreases exp
+//@ loop 7: decreases exp
+//@ loop 9: decreases exp
+//@ loop 10: decreases exp
+//@ loop 13: decreases exp
+//@ loop 14: decreases exp
+//@ loop 11: decreases sig192[2]
+//@ loop 5: decreases exp
 //@ props C03 C15 C20
 
 // QuoRem (C03): QuoRemWithMode under DefaultRoundingMode.
@@ -2953,6 +2961,10 @@ package decimal128
 //@ ghost SH int = 0
 //@ ghost before "exp += 4": SH = shift
 //@ loop 5: invariant 0 <= shift && shift <= SH && SH <= 6111 && SH >= 1 && 4 <= exp && exp <= 4 * (6111 - SH) + 4 && (shift == SH ==> sig256[3] <= 0x0fffffffffffffff)
+//@ loop 2: decreases shift
+//@ loop 3: decreases shift
+//@ loop 4: decreases shift
+//@ loop 5: decreases shift
 //@ props C09 C20
 
 //@ func Decimal.Float32
@@ -2980,6 +2992,8 @@ package decimal128
 //@ ensures width <= 0 ==> (forall k in 0..N0 - 1: out[k] == old(buf[k]))
 //@ loop 1: invariant n <= i && i <= width
 //@ loop 2: invariant 0 <= i && i <= p
+//@ loop 1: decreases width - i
+//@ loop 2: decreases p - i
 //@ props C06 C20
 
 // Format (C06): the string form of Append into an empty buffer.
